@@ -23,9 +23,13 @@ def obligations(repo):
     def ob(g, name, ok, detail=""):
         out.append({"name": f"{g}:C15:{name}", "ok": bool(ok), "detail": str(detail)[:200], "group": f"{g}:C15"})
     rt = repo.module("runtime")
+    # the module lock: whatever module-level name is bound to threading.Lock()/RLock()
+    locknames = [n for n, v in rt.assigns.items() if isinstance(v, ast.Call) and ast.unparse(v.func) in ("threading.Lock", "threading.RLock", "Lock", "RLock")]
+    LOCK = locknames[0] if locknames else "lock"
+    ob("runtime", "one-module-lock", len(locknames) == 1, locknames)
     shared = [n for n, v in rt.assigns.items() if isinstance(v, ast.Dict) and not v.keys]
     for fname, fn in list(rt.functions.items()) + [(f"{c.name}.{m}", f) for c in rt.classes.values() for m, f in c.methods.items()]:
-        for node, inside in _inside_with(fn, "lock"):
+        for node, inside in _inside_with(fn, LOCK):
             if isinstance(node, ast.Name) and node.id in shared:
                 is_write_table = node.id != "_DEFAULT_HANDLERS"
                 # reads of the default-handler table outside the lock are single dict reads (atomic under the GIL); everything else must be locked
@@ -34,11 +38,11 @@ def obligations(repo):
     # no function called inside a locked region takes the same lock again (non-reentrant Lock)
     locked_callees = set()
     for fname, fn in list(rt.functions.items()) + [(f"{c.name}.{m}", f) for c in rt.classes.values() for m, f in c.methods.items()]:
-        for node, inside in _inside_with(fn, "lock"):
+        for node, inside in _inside_with(fn, LOCK):
             if inside and isinstance(node, ast.Call):
                 locked_callees.add(ast.unparse(node.func))
-    takes_lock = {n for n, f in rt.functions.items() if "with lock" in ast.unparse(f)} | \
-                 {f"{c.name}.{m}" for c in rt.classes.values() for m, f in c.methods.items() if "with lock" in ast.unparse(f)}
+    takes_lock = {n for n, f in rt.functions.items() if f"with {LOCK}" in ast.unparse(f)} | \
+                 {f"{c.name}.{m}" for c in rt.classes.values() for m, f in c.methods.items() if f"with {LOCK}" in ast.unparse(f)}
     bad = [c for c in locked_callees if c in takes_lock or (c == "Runtime" and "Runtime.__init__" in takes_lock)]
     ob("runtime", "no-reacquisition-of-the-module-lock-inside-a-locked-region", not bad, bad)
     # overload.py
